@@ -228,11 +228,19 @@ class Part(dict):
 
 # -------------------------------------------------------------------- findings / evidence
 def load_known():
-    path = os.path.join(ROOT, "known_findings.json")
-    if not os.path.exists(path):
-        return {"findings": [], "fixed": []}
-    with open(path) as fh:
-        return json.load(fh)
+    """known_findings.json plus provisional fragments known_findings.d/*.json (merged at integration)."""
+    out = {"findings": [], "fixed": []}
+    paths = [os.path.join(ROOT, "known_findings.json")]
+    frag = os.path.join(ROOT, "known_findings.d")
+    if os.path.isdir(frag):
+        paths += sorted(os.path.join(frag, f) for f in os.listdir(frag) if f.endswith(".json"))
+    for path in paths:
+        if os.path.exists(path):
+            with open(path) as fh:
+                d = json.load(fh)
+            out["findings"] += d.get("findings", [])
+            out["fixed"] += d.get("fixed", [])
+    return out
 
 
 def finish(ctx, level="model_checking", rule="", extra=None):
